@@ -123,4 +123,13 @@ Definition fd_read (k : kern) (s : sched) (size : nat) : res * kern * sched :=
 (** socket_pexpect.SocketSpawn.read_nonblocking: recv with a timeout = wait, then read *)
 Definition sock_read (k : kern) (s : sched) (size : nat) : res * kern * sched := fd_read k s size.
 
+(** SocketSpawn wraps recv in `with self._timeout(t)` (socket_pexpect.py:93-100): the socket's own timeout is looked up, replaced
+    by the read's timeout and put back whatever recv does.  [own]: the socket's own timeout (None = blocking), in ms;
+    [tlog]: every settimeout call made on the socket *)
+Record sock := { own : option Z; tlog : list (option Z) }.
+Definition sock_read_t (sk : sock) (t : option Z) (k : kern) (s : sched) (size : nat) : res * kern * sched * sock :=
+  let saved := own sk in
+  let '(r, k', s') := sock_read k s size in
+  (r, k', s', {| own := saved; tlog := tlog sk ++ [t; saved] |}).
+
 Definition data_of (r : res) : text := match r with RData d => d | _ => [] end.
